@@ -1088,9 +1088,9 @@ func genSwitch(g *hx.Gen) {
 	g.Case("switch admission", ops, true)
 }
 
-// exerciseSnappyBomb gates the cases of the proposed finding read-allocates-announced-length (proposed/C18-snappy-bomb.md):
-// a few-byte compressed frame that announces a huge decoded length makes Read allocate that much before any length test.
-const exerciseSnappyBomb = false
+// exerciseSnappyBomb: the cases of the finding read-allocates-announced-length (proposed/C18-snappy-bomb.md, fixed in /repo by
+// 3c63eeb): a few-byte compressed frame that announces a huge decoded length must be refused WITHOUT that allocation.
+const exerciseSnappyBomb = true
 
 func uvarint(n uint64) []byte {
 	var b []byte
